@@ -219,6 +219,7 @@ class Gen:
         flags = set()
         retname = None
         synth_sig = []
+        synth_tail = []
         cur = contract
         for l in lines:
             if l.startswith('//@+'):
@@ -245,6 +246,8 @@ class Gen:
             elif d.startswith('sub '):
                 t = _ticks(d)
                 subs.append(('lit', t[0], t[1], d.split()[-1]))
+            elif d == 'tail':
+                cur = synth_tail
             elif d.startswith('sig'):
                 cur = synth_sig
             elif d in ('external_body', 'decl', 'bodyless-ok', 'noR1'):
@@ -265,7 +268,7 @@ class Gen:
             if not synth_sig:
                 raise TemplateError('slice %s needs a //@ sig block' % oid)
             sig = '\n'.join(synth_sig)
-            body = '{\n' + slice_text + '\n}'
+            body = '{\n' + slice_text + '\n' + '\n'.join(synth_tail) + '\n}'
             fired.append('R9')
         if body is None and 'bodyless-ok' not in flags and 'decl' not in flags:
             raise LostAnchor('%s has no body' % anchor)
